@@ -247,7 +247,7 @@ def run(ctx, prop, n_quick, n_thorough):
         nf = sum(1 for js in spec["jobs"] if any(d[0] == "f" for d in js["deps"]))
         failed_acq = sum(1 for op, out, _ in oplog if op[0] == "acquireBegin" and not out["ok"])
         reqs = {js["ident"]: _req(spec, js["ident"]) for js in spec["jobs"]}
-        stale = sum(1 for op, out, o in oplog if op[0] in ("acquireBegin", "release")
+        stale = sum(1 for op, out, o in oplog if op[0] in ("acquireBegin", "release", "relEnd")
                     and any(not P["dropped"] and P["avail"] != spec["total"] - sum(reqs[f] for f, _ in o["disk"]) for P in o["procs"]))
         nontrivial = spec["nsched"] >= 2 and nf >= 2 and (failed_acq > 0 or stale > 0)
         case = {"seed": seed, "spec": spec, "faults": sorted(faults), "events": r["events"][:80]}
@@ -257,9 +257,11 @@ def run(ctx, prop, n_quick, n_thorough):
         ctx.count("ft_jobs", len(spec["jobs"]))
         ctx.count("ft_fault_class", "+".join(sorted(faults)) or "none")
         ctx.count("ft_quiescent", r["quiescent"])
+        if r.get("race_injected"):
+            ctx.count("ft_release_unlink_raced_by_foreign_watcher", r["race_injected"])
         prev = None
         for op, out, o in oplog:
-            if op[0] == "release" and out["ok"]:
+            if op[0] in ("release", "relBegin") and out["ok"]:
                 ctx.count("ft_release_kind", "aborted start (job lock still held)" if prev is not None and op[2] in prev["active"] else "after the job ended")
             prev = o
         for op, out, _ in oplog:
